@@ -1432,8 +1432,10 @@ Proof. intros H1 H2. split; assumption. Qed.
 (** *** C09 closure, the union node: a value read with return_named_type=True under a NAMED branch (record / enum /
     fixed given inline, or a by-name reference) is a (name, value) pair, and writing that pair back selects the same
     index -- provided no earlier branch answers to the same name -- and re-encodes the inner value under the branch *)
-Definition named_branch (b : schema) : bool :=
-  match strip b with SRecord _ _ _ | SEnum _ _ _ _ | SFixed _ _ _ | SRef _ => true | _ => false end.
+(* b denotes a named type (inline, or by name through the table) whose name is the one the branch answers to in tuple
+   notation; for a by-name branch this says that the table entry carries the name it is filed under (C11_refs_denote) *)
+Definition named_branch (e : env) (b : schema) : bool :=
+  match branch_kind e b with Some (n, _) => bytes_eqb n (branch_name b) | None => false end.
 
 Lemma find_named_first nm bs : forall i0 i b, nthZ bs (i - i0) = Some b -> branch_name b = nm -> i0 <= i ->
   (forall k c, 0 <= k < i - i0 -> nthZ bs k = Some c -> branch_name c <> nm) -> find_named nm bs i0 = Some i.
@@ -1451,7 +1453,7 @@ Proof.
 Qed.
 
 Theorem union_closure_step f o e bs i b a pv0 pv :
-  disable_tuple o = false -> nthZ bs i = Some b -> named_branch b = true ->
+  disable_tuple o = false -> nthZ bs i = Some b -> named_branch e b = true ->
   (forall k c, 0 <= k < i -> nthZ bs k = Some c -> branch_name c <> branch_name b) ->
   py_of ro_named e b a = Some pv0 -> elab f o e b pv0 = WOk a ->
   py_of ro_named e (SUnion bs) (AUnion i a) = Some pv ->
@@ -1460,8 +1462,8 @@ Proof.
   intros Hd Hn Hnb Hfirst Hp0 Hel Hp.
   assert (Hpv : pv = PTuple [PStr (branch_name b); pv0]).
   { cbn [py_of resolve strip] in Hp. rewrite Hn, Hp0 in Hp. injection Hp as <-.
-    unfold wrap_union, ro_named, named_branch, branch_name, type_name in *. cbn [ret_named_override ret_named andb] in *.
-    destruct (strip b); try discriminate Hnb; reflexivity. }
+    unfold wrap_union, ro_named, named_branch in *. cbn [ret_named_override ret_named andb] in *.
+    destruct (branch_kind e b) as [[n r]|]; [|discriminate Hnb]. apply beqb_eq in Hnb. rewrite Hnb. reflexivity. }
   split; [exact Hpv|]. subst pv. rewrite elab_union_eq, Hd.
   pose proof (nthZ_range _ _ _ Hn) as Hi.
   rewrite (find_named_first (branch_name b) bs 0 i b); [|rewrite Z.sub_0_r; exact Hn|reflexivity|lia|rewrite Z.sub_0_r; exact Hfirst].
@@ -1636,7 +1638,7 @@ Proof.
     replace (i - i0 - 1) with (i - (i0 + 1)) by lia. apply IH. exact H.
 Qed.
 
-Lemma wrap_union_ropts0 bs b r : wrap_union ropts0 bs b r = r.
+Lemma wrap_union_ropts0 e bs b r : wrap_union ropts0 e bs b r = r.
 Proof. reflexivity. Qed.
 
 (* float(datum_value) before a "float"/"double" field is written does not change the normalisation *)
